@@ -11,7 +11,7 @@ RULE = ("sessions against 0-4 scripted Keep services (per-request answers drawn 
         "block, two locators sharing one hash, size hints beyond 32 bits and Content-Lengths above 64 MiB), Retries 0-3, BlockCache MaxBlocks 0-3; ops: Get + ReadAll / "
         "WriteTo / ReadFull(m)+Close, Ask, ReadAt at many offsets, BlockCache.Get with the returned slice held and re-inspected after later fetches and sweeps, PutB of a block from a buffer the caller then overwrites followed by cached reads of that block, File.Read/Seek over a one-file manifest; multi-stream multi-file collections (1-3 streams, files sharing blocks, tokens straddling block boundaries, several handles via CollectionFileReader); File.Seek with every whence (SeekStart, SeekCurrent forwards/backwards into the same or another segment, SeekEnd, negative and beyond-EOF targets) incl. seek-walk sessions on a healthy Keep (read, skip with SeekCurrent, read); "
         "re-read sessions (every first answer is a wrong 200, then the same block is read again through the same cache); concurrent schedules (2-4 readers, 1-2 blocks, every fetch request blocked and released in scripted "
-        "order); storedSegment.ReadAt with arbitrary offset/length/off/len. Non-trivial = at least one HTTP "
+        "order); concurrent schedules over a small cache (MaxBlocks 1-2, 2-4 blocks, up to 7 readers, Sweeps that evict entries whose fetch is still blocked, overlapping fetches of one block); storedSegment.ReadAt with arbitrary offset/length/off/len. Non-trivial = at least one HTTP "
         "request was made (or, for seg, the backend was called); distinct = distinct case line")
 ASSUMPTIONS = [
     "the HTTP exchange is value-level: the stub hands *http.Response values to the client (no real framing)",
@@ -562,6 +562,40 @@ def _gen_conc(rng):
     return f"conc {retries} {','.join(uuids)} {'|'.join(blocks)} {','.join(sched)}"
 
 
+def _gen_concm(rng):
+    """Concurrent schedule over a small cache: MaxBlocks 1-2, 2-4 blocks (mostly distinct hashes), up to 7
+    readers; steps start a reader of a block (s), run a synchronous Sweep and release the oldest blocked request
+    of a block's fetch (f), or only Sweep (x). With more blocks than MaxBlocks a Sweep evicts entries whose
+    fetch is still blocked in a service: the orphaned fetch must still deliver to its own readers and to
+    nobody else, a later reader of that block starts a second, overlapping fetch of the same block, and the
+    answers are consumed in the order the requests reach the services."""
+    nsvc = rng.randint(1, 2)
+    uuids = _uuids(rng, nsvc)
+    retries = rng.choice([0, 0, 1])
+    maxb = rng.choice([1, 1, 2])
+    nblk = rng.randint(2, 4)
+    used, blocks = set(), []
+    p_good = rng.choice([0.5, 0.7, 0.9])
+    first = None
+    for i in range(nblk):
+        if i > 0 and rng.random() < 0.1:
+            s_, *_ = _block(rng, nsvc, uuids, retries, used, p_good=p_good, blk=first)
+        else:
+            s_, first, *_ = _block(rng, nsvc, uuids, retries, used, consistent_only=rng.random() < 0.9, p_good=p_good)
+        blocks.append(s_)
+    sched, started = [], 0
+    for _ in range(rng.randint(4, 16)):
+        r = rng.random()
+        if started < 7 and (r < 0.45 or started == 0):
+            sched.append(f"s{rng.randrange(nblk)}")
+            started += 1
+        elif r < 0.9:
+            sched.append(f"f{rng.randrange(nblk)}")
+        else:
+            sched.append("x")
+    return f"concm {retries} {maxb} {','.join(uuids)} {'|'.join(blocks)} {','.join(sched)}"
+
+
 def _gen_seg(rng):
     n = rng.choice([0, 1, 2, 5, 8, 16, 40])
     blk = bytes(rng.randrange(256) for _ in range(n))
@@ -597,6 +631,8 @@ def generate(rng, tier):
         cases.append(_gen_oversize(rng))
     for _ in range(150 * scale):
         cases.append(_gen_seekwalk(rng))
+    for _ in range(150 * scale):
+        cases.append(_gen_concm(rng))
     return cases
 
 
@@ -661,6 +697,8 @@ def oracle(case, impl):
     when the locator has one) is named by the locator; a faulty response must surface as an error and
     must not satisfy a later read from the cache. Looks at implementation output only."""
     f = case.split(" ")
+    if f[0] == "concm":
+        f = ["conc", f[1]] + f[3:]
     if impl.startswith(("panic", "CRASH")):
         return "the read ended with a crash of the reading process instead of an error: " + impl[:160]
     if impl == "bad-op" or impl.startswith(("timeout", "stuck")):
@@ -918,9 +956,12 @@ def nontrivial_key(case, impl):
 def describe(cases, impl):
     kinds, outcomes, ops = {}, {}, {}
     weak = 0
+    conc_ev = {"schedules_with_a_pending_entry_evicted": 0, "pending_entries_evicted": 0}
     for c, r in zip(cases, impl):
         f = c.split(" ")
         kinds[f[0]] = kinds.get(f[0], 0) + 1
+        if f[0] == "concm":
+            f = ["conc", f[1]] + f[3:]
         if f[0] == "sess":
             kinds["sess-file"] = kinds.get("sess-file", 0) + (f[5] != "-")
             for op in ([] if f[6] == "-" else f[6].split(",")):
@@ -931,6 +972,10 @@ def describe(cases, impl):
                 weak += 1
         if r is None:
             continue
+        if f[0] == "conc" and " ev=" in r:
+            n = int(r.split(" ev=")[1].split(" ")[0])
+            conc_ev["schedules_with_a_pending_entry_evicted"] += n > 0
+            conc_ev["pending_entries_evicted"] += n
         if r.startswith(("CRASH", "panic", "timeout", "stuck", "bad-op")):
             outcomes[r.split(" ")[0]] = outcomes.get(r.split(" ")[0], 0) + 1
             continue
@@ -957,7 +1002,7 @@ def describe(cases, impl):
         f = c.split(" ")
         if f[0] == "seg":
             continue
-        for b in f[4 if f[0] == "sess" else 3].split("|"):
+        for b in f[4 if f[0] in ("sess", "concm") else 3].split("|"):
             for sv in b.split("~")[3].split(";"):
                 for x in (sv.split(",") if sv else []):
                     if x == "E":
@@ -973,7 +1018,7 @@ def describe(cases, impl):
                         resp["B-ueof"] += q[2][0] == "u"
                         resp["B-together"] += q[2][1] == "t"
                         resp["B-closefail"] += q[2][2] == "c"
-    return {"case_kinds": kinds, "ops": ops, "outcomes": dict(sorted(outcomes.items())), "scripted_answers": resp,
+    return {"case_kinds": kinds, "ops": ops, "concurrent_schedules": conc_ev, "outcomes": dict(sorted(outcomes.items())), "scripted_answers": resp,
             "sessions_with_an_inconsistent_locator(weak oracle)": weak}
 
 
@@ -985,6 +1030,8 @@ def neighbours(case, rng):
             out.append(_gen_seg(rng))
         elif f[0] == "conc":
             out.append(_gen_conc(rng))
+        elif f[0] == "concm":
+            out.append(_gen_concm(rng))
         else:
             out.append(_gen_sess(rng, want_file=(f[5] != "-"), sweepy=(rng.random() < 0.2)))
     return out
